@@ -7,7 +7,7 @@
 #include "vx.h"
 #include "vx_open.h"
 #include <xercesc/framework/XMLFormatter.hpp>
-#include <xercesc/util/XMLASCIITranscoder.hpp>
+#include <xercesc/util/TransService.hpp>
 #include <xercesc/util/XMLString.hpp>
 #include "vx_close.h"
 #define VX_STUB_XMLEXCEPTION
@@ -18,10 +18,26 @@
 #define N 2
 #endif
 #define OUTMAX 64
+// 7-bit output encoding with the contract of the real US-ASCII transcoder (representable iff < 0x80, unrepresentable => exception unless a
+// replacement is asked for); the real transcoders are verified on their own in C05 - here the subject is the formatter
+static int vx_unrep_throw; static XMLFormatter* g_fmt;
+struct Ascii7 : XMLTranscoder {
+  Ascii7(MemoryManager* m) : XMLTranscoder(0, 64, m) {}
+  XMLSize_t transcodeFrom(const XMLByte* const, const XMLSize_t, XMLCh* const, const XMLSize_t, XMLSize_t& e, unsigned char* const) { e = 0; return 0; }
+  // writes through the TYPED lvalue g_fmt->fTmpBuf[...] (a store through a raw pointer into a member array is a whole-object byte update in CBMC)
+  XMLSize_t transcodeTo(const XMLCh* const src, const XMLSize_t n, XMLByte* const out, const XMLSize_t max, XMLSize_t& eaten, const UnRepOpts opt) {
+    XMLSize_t at = (XMLSize_t)(out - g_fmt->fTmpBuf);
+    VX_ASSERT(at == 0 && max <= XMLFormatter::kTmpBufSize, "the formatter hands the transcoder its staging buffer, with its true size");
+    XMLSize_t k = n < max ? n : max;
+    for (XMLSize_t i = 0; i < 16; i++) if (i < k) { XMLByte b; if (src[i] < 0x80) b = (XMLByte)src[i]; else if (opt == UnRep_Throw) { vx_unrep_throw++; b = '!'; } else b = 0x1A; g_fmt->fTmpBuf[i] = b; }
+    VX_ASSERT(k <= 16, "chunk handed to the transcoder within the harness bound"); VX_ASSUME(k <= 16);
+    eaten = k; return k; }
+  bool canTranscodeTo(const unsigned int c) { return c < 0x80; }
+};
 struct Collect : XMLFormatTarget {
   XMLByte buf[OUTMAX]; XMLSize_t n; bool overflow;
   Collect() : n(0), overflow(false) {}
-  void writeChars(const XMLByte* const p, const XMLSize_t count, XMLFormatter* const) { for (XMLSize_t i = 0; i < count; i++) { if (n < OUTMAX) buf[n++] = p[i]; else overflow = true; } }
+  void writeChars(const XMLByte* const p, const XMLSize_t count, XMLFormatter* const) { if (count > 16 || n + count > OUTMAX) { overflow = true; return; } memcpy(buf + n, p, count); n += count; }
 };
 static XMLByte ref[OUTMAX]; static XMLSize_t rn;
 static void put(char c) { if (rn < OUTMAX) ref[rn++] = (XMLByte)c; }
@@ -41,10 +57,9 @@ static bool inEsc(unsigned mode, unsigned c, bool xml11) {
 }
 extern "C" void harness_formatter(void) {
   VxMMFixed<16> mm;
-  static const XMLCh nm[] = { 'A', 0 };
-  XMLASCIITranscoder xc(nm, 1024, &mm);
+  Ascii7 xc(&mm);
   Collect tgt;
-  static VxRaw<XMLFormatter> fr; XMLFormatter* f = &fr.obj;
+  static VxRaw<XMLFormatter> fr; XMLFormatter* f = &fr.obj; g_fmt = f;
   unsigned mode = nondet_u8(); VX_ASSUME(mode <= XMLFormatter::CharEscapes);
   bool xml11 = nondet_bool();
   f->fEscapeFlags = (XMLFormatter::EscapeFlags)mode; f->fOutEncoding = 0; f->fTarget = &tgt; f->fUnRepFlags = XMLFormatter::UnRep_CharRef; f->fXCoder = &xc;
@@ -73,6 +88,7 @@ extern "C" void harness_formatter(void) {
     } else put((char)u);
   }
   VX_ASSERT(!threw, "formatting with character references for unrepresentable characters never throws");
+  VX_ASSERT(vx_unrep_throw == 0, "the transcoder is never handed a character it cannot represent (it would throw)");
   VX_ASSERT(!tgt.overflow && tgt.n == rn, "number of bytes written equals the reference serialisation");
   for (XMLSize_t i = 0; i < OUTMAX; i++) if (i < rn && tgt.n == rn) VX_ASSERT(tgt.buf[i] == ref[i], "bytes written equal the reference: raw iff representable and not in the escape set, else entity or &#xHEX;");
   if (c[0] >= 0xD800 && c[0] <= 0xDBFF) VX_REACH("supplementary character written as one reference");
